@@ -258,7 +258,7 @@ def case_stiff(rng, tier):
                 if s['kind'] == 'blade1d':
                     mech = judge_blade1d(c, d, s, bay_i, Ci[:ns, :ns], k)
                 ev = np.linalg.eigvalsh((Ci + Ci.T) / 2)
-                bound = 1e-8 * max(1.0, d['b'] / s['bb'] if 'bb' in s else 1.0) * float(np.linalg.norm(sc, 2))       # round-off of the penalty-joined blocks and of the strip integrals (sub-interval tables: grows with b / strip width)
+                bound = 3e-8 * max(1.0, d['b'] / s['bb'] if 'bb' in s else 1.0) * float(np.linalg.norm(sc, 2))       # round-off of the penalty-joined blocks and of the strip integrals (sub-interval tables: grows with b / strip width)
                 c.judge('stiffener %s contribution positive semi-definite' % nm, max(0.0, -ev.min()), bound, mechanism=mech,
                         data={'kind': s['kind'], 'min': ev.min(), 'max': ev.max()})
     for k, (nm, Aa, A0) in enumerate((('k0', Ka, K0), ('kG0', Ga, G0), ('kM', Ma, M0))):
